@@ -406,8 +406,10 @@ class MexicanHatPotential(StandardVelocityInvertiblePotential, metaclass=ABCMeta
             The displacement of the active unit i where the cumulative event rate equals the sampled potential change.
         """
         norm_of_new_separation = self._invert_potential_outside_minimum(current_potential + potential_change)
+        # The new separation vector cannot be shorter than the current one except for rounding.
         return vectors.displacement_until_new_norm_sq_component_negative(
-            separation, norm_of_new_separation * norm_of_new_separation, direction)
+            separation, max(norm_of_new_separation * norm_of_new_separation, sum(value ** 2 for value in separation)),
+            direction)
 
     def _displacement_behind_outside_sphere(self, direction: int, potential_change: float,
                                             separation: MutableSequence[float]) -> float:
@@ -520,8 +522,10 @@ class MexicanHatPotential(StandardVelocityInvertiblePotential, metaclass=ABCMeta
         if potential_change < potential_difference:
             norm_of_new_separation = self._invert_potential_inside_minimum(
                 current_potential + potential_change)
+            # The new separation vector cannot be shorter than the separation at the maximum except for rounding.
             displacement = vectors.displacement_until_new_norm_sq_component_positive(
-                separation, norm_of_new_separation * norm_of_new_separation, direction)
+                separation, max(norm_of_new_separation * norm_of_new_separation,
+                                sum(value ** 2 for value in separation_at_maximum_inside)), direction)
         else:
             displacement = separation[direction]
             separation[direction] = 0.0
